@@ -60,7 +60,8 @@ def sp_id(decl, has_cat, swamid='none'):
 
 
 def sp_ids():
-    return [sp_id(d, c, sw) for d in DECLS for c in (False, True) for sw in ('none', 're_only', 're_eu')]
+    return [sp_id(d, c, sw) for d in DECLS for c in (False, True) for sw in ('none', 're_only', 're_eu')] + \
+        [sp_id(d, False, 'rs_support') for d in DECLS]
 
 
 _FED = []
@@ -75,7 +76,12 @@ def federation():
 
 
 def _federation():
-    def ext(cats):
+    def ext(cats, support=False):
+        if support:
+            return ('<md:Extensions><mdattr:EntityAttributes xmlns:mdattr="urn:oasis:names:tc:SAML:metadata:attribute">'
+                    '<saml:Attribute xmlns:saml="%s" Name="http://macedir.org/entity-category-support" '
+                    'NameFormat="urn:oasis:names:tc:SAML:2.0:attrname-format:uri"><saml:AttributeValue>%s</saml:AttributeValue>'
+                    '</saml:Attribute></mdattr:EntityAttributes></md:Extensions>' % (sb.NS_SAML, RS))
         if not cats:
             return ''
         return ('<md:Extensions><mdattr:EntityAttributes xmlns:mdattr="urn:oasis:names:tc:SAML:metadata:attribute">'
@@ -88,6 +94,8 @@ def _federation():
             for sw in ('none', 're_only', 're_eu'):
                 cats = ([RS] if c else []) + {'none': [], 're_only': [RE], 're_eu': [RE, EU]}[sw]
                 out.append(env.sp_metadata(entity_id=sp_id(d, c, sw), requested=requested({'decl': d}), extra=ext(cats)))
+            if not c:
+                out.append(env.sp_metadata(entity_id=sp_id(d, c, 'rs_support'), requested=requested({'decl': d}), extra=ext([], support=True)))
     return out
 
 
